@@ -87,6 +87,18 @@ def run(ctx, replay_case):
         with open(path, "wb") as f:
             f.write(cont)
         jobs.append(("convert", ["convert", "--in", fmt_in, "--out", fmt_out, path], ("Stream", None, fmt_in, fmt_out, cont, data)))
+        # the same bytes spread over several files, one of them empty (the files are read one after the other)
+        if i % (6 if ctx.tier == "quick" else 3) == 0 and fmt_in in ("binary", "hex", "auto") and len(cont) >= 2:
+            cuts = sorted(rnd.sample(range(1, len(cont)), min(len(cont) - 1, rnd.choice([1, 2]))))
+            parts = [cont[a:b] for a, b in zip([0] + cuts, cuts + [len(cont)])]
+            parts.insert(rnd.randrange(len(parts) + 1), b"")
+            paths = []
+            for j, part in enumerate(parts):
+                pj = os.path.join(tmp, f"in{i}_part{j}.bin")
+                with open(pj, "wb") as f:
+                    f.write(part)
+                paths.append(pj)
+            jobs.append(("convert-files", ["convert", "--in", fmt_in, "--out", fmt_out] + paths, ("Stream", None, fmt_in, fmt_out, cont, data)))
         # a single message with --type
         m = msgs[0]
         p2 = os.path.join(tmp, f"msg{i}.bin")
